@@ -520,3 +520,8 @@ func init() {
 	addMutant(Mutant{Name: "c20-precision-unbounded", Property: "C20", File: "ytypes/leaf.go",
 		Old: "\t\t\tif v.DecimalVal.Precision > 18 {", New: "\t\t\tif v.DecimalVal.Digits > 1<<62 {", Expect: "precision-use#"})
 }
+
+func init() {
+	addMutant(Mutant{Name: "c05-ordered-disjoint-by-scan-counter", Property: "C05", File: "ygot/struct_validation_map.go",
+		Old: "\tcase si == len(srcKeys), disjoint:", New: "\tcase si == len(srcKeys), si == 0 || disjoint:", Expect: "orderedMapKeysMergeable:accept"})
+}
